@@ -454,8 +454,14 @@ class TypesCodeGenerator:
             self._types.move_to_end(type_name)
 
     def _add_enum(self, enum_def: model.Enum) -> None:
+        # `enum.unique` refuses two names for one value (which makes the second an
+        # alias of the first); some enumerations have such pairs.
+        values = [item.value for item in enum_def.values]
+        has_aliases = len(set(values)) < len(values)
         code_lines = [
-            "" if enum_def.name in SPECIAL_ENUMS else "@enum.unique",
+            ""
+            if enum_def.name in SPECIAL_ENUMS or has_aliases
+            else "@enum.unique",
         ]
         if enum_def.type.name == "string":
             code_lines += [f"class {enum_def.name}(str, enum.Enum):"]
